@@ -394,6 +394,7 @@ func Alphabet(thorough bool) []Op {
 		Op{"bupd", []ItemSpec{{0, 1, 2}, {1, 0, 0}}},
 		Op{"bupd", []ItemSpec{{2, 2, 4}, {2, 0, 3}}},
 		Op{"bupd", []ItemSpec{{0, 0, 0}, {1, 1, 3}, {2, 0, 2}}},
+		Op{"bupd", []ItemSpec{{1, 1, 0}, {0, 1, 0}, {2, 0, 0}}}, // several items that bring no metadata of their own
 		Op{"brem", []ItemSpec{{0, 0, 0}, {1, 0, 0}}},
 		Op{"brem", []ItemSpec{{2, 0, 0}, {2, 0, 0}}},
 		Op{"brem", []ItemSpec{{1, 0, 0}}},
